@@ -7,3 +7,6 @@ import Theorems.C08
 import Theorems.C09
 import Theorems.Lemmas.Frame
 import Theorems.C06
+import Theorems.Lemmas.Codec
+import Theorems.C03
+import Theorems.C20
